@@ -45,11 +45,13 @@ pub struct RefStatus {
     pub oper: RegSet,
     pub ques: RegSet,
     pub queue: RefQueue,
+    /// what *IDN? answers (the four fields joined by commas; empty fields keep their separators)
+    pub idn: &'static [u8],
 }
 
 impl RefStatus {
     pub fn new(cap: Option<usize>) -> Self {
-        RefStatus { esr: 0, ese: 0, sre: 0, oper: RegSet::power_on(), ques: RegSet::power_on(), queue: RefQueue::new(cap) }
+        RefStatus { esr: 0, ese: 0, sre: 0, oper: RegSet::power_on(), ques: RegSet::power_on(), queue: RefQueue::new(cap), idn: b"VERIF,HARNESS,0,1" }
     }
     /// what the documented wiring does with a failed message's error
     pub fn record_error(&mut self, it: QItem) {
